@@ -77,13 +77,18 @@ pub fn matrices(rec: &mut Recorder, rng: &mut Rng, thorough: bool) {
         let mut w = if it < 2 * widths.len() { widths[it % widths.len()] } else if rng.chance(1, 2) { *rng.pick(&widths) } else { rng.range(1, if thorough { 300 } else { 140 }) as usize };
         // a few very wide matrices (rows of 8 and more 64-bit words: block-wise row kernels)
         if it % (if thorough { 25 } else { 55 }) == 7 { w = *rng.pick(&[449usize, 511, 512, 513, 576, 577, 640, 1025]); rec.count("very_wide_matrices"); }
-        let h = w + match rng.below(4) { 0 => 0, 1 => 1, _ => rng.below(20) as usize };
+        // directed family: rows never swapped, a same-width shrink in the first un-indexed phase, the index rebuilt, and
+        // the dense tail then pushed across a word boundary (storage that survived the shrink meets the re-spacing code)
+        let directed = it % 8 == 5;
+        if directed { w = *rng.pick(&[70usize, 100, 129, 140]); rec.count("directed_shrink_reindex_freeze"); }
+        let h = if directed { w + rng.range(8, 24) as usize } else { w + match rng.below(4) { 0 => 0, 1 => 1, _ => rng.below(20) as usize } };
         // hints just below / at a multiple of 64 (with sparse columns left to freeze): the dense tail then
         // grows across a word boundary (64->65, 128->129, 192->193, 256->257 columns) and is re-spaced
         let top = if w >= 2 { (w - 1) / 64 * 64 } else { 0 };
         let hint = match rng.below(11) { 0 => 0, 1 => 1, 2 => 63.min(w), 3 => 64.min(w), 4 => 65.min(w), 5 => w,
             6 => top, 7 => top.saturating_sub(1), 8 => if top >= 128 && rng.chance(1, 2) { top - 64 } else { top },
             _ => rng.below(w as u64 + 1) as usize };
+        let hint = if directed { 64 - rng.range(1, 6) as usize } else { hint };
         let mut sh = Shadow { h, w, dense: hint, bits: vec![vec![false; w]; h], indexed: false, col_valid: vec![true; w], tainted: vec![None; h] };
         let mut ops: Vec<String> = vec![];
         // ---- construction
@@ -98,8 +103,8 @@ pub fn matrices(rec: &mut Recorder, rng: &mut Rng, thorough: bool) {
         queries(&sh, rng, &mut ops, 12);
         // the pair (indexed phase, un-indexed phase) may repeat: the interface allows the column index to be
         // rebuilt after an un-indexed phase (also after a resize that kept the dense tail)
-        let cycles = if rng.chance(1, 3) { rng.range(2, 3) as usize } else { 1 };
-        let no_row_swaps = rng.chance(1, 3);
+        let cycles = if directed { 2 } else if rng.chance(1, 3) { rng.range(2, 3) as usize } else { 1 };
+        let no_row_swaps = directed || rng.chance(1, 3);
         for cycle in 0..cycles {
         // ---- indexed phase
         // (the column index is keyed by physical column but sized by the current height - `ImmutableListMapBuilder::new(self.height)`:
@@ -120,7 +125,7 @@ pub fn matrices(rec: &mut Recorder, rng: &mut Rng, thorough: bool) {
                         ops.push(format!("fr:{}", fd - 1));
                     }
                     let nfd = sh.first_dense();
-                    for r in 0..sh.h { if sh.defined(r, nfd) { ops.push(format!("sro:{r}:{nfd}")); } for c in 0..sh.w { if sh.defined(r, c) && (c + 3 >= nfd || c < 2) { ops.push(format!("g:{r}:{c}")); } } }
+                    for r in 0..sh.h { if sh.defined(r, nfd) { ops.push(format!("sro:{r}:{nfd}")); } if r % 7 == 3 { for c in 0..sh.w { if sh.defined(r, c) && (c + 3 >= nfd || c < 2) { ops.push(format!("g:{r}:{c}")); } } } }
                     rec.count("reindexed_freeze_crosses_word_boundary");
                 }
             }
@@ -173,6 +178,12 @@ pub fn matrices(rec: &mut Recorder, rng: &mut Rng, thorough: bool) {
             sh.indexed = false;
         }
         // ---- un-indexed phase
+        if directed && cycle == 0 && sh.h > w {
+            let nh = rng.range(w as u64, sh.h as u64 - 1) as usize;
+            sh.bits.truncate(nh); sh.tainted.truncate(nh); sh.h = nh;
+            ops.push(format!("rs:{nh}:{}", sh.w));
+            queries(&sh, rng, &mut ops, 6);
+        }
         let steps = rng.range(0, 20) as usize;
         for _ in 0..steps {
             let fd = sh.first_dense();
